@@ -602,15 +602,24 @@ func (pr *ProtoArray) OnPrune(ctx context.Context, anchorRoot Root, anchorSlot S
 	if err != nil {
 		return err
 	}
-	headIndex, ok := pr.indices[head]
-	if !ok {
+	if _, ok := pr.indices[head]; !ok {
 		return HeadUnknownErr
+	}
+	// The pruned nodes on the transition path to the anchor are canonical: the blocks and the
+	// (pre-block and gap) slots that lead to it. Best-descendant links only follow forkchoice
+	// parents, and miss the slot nodes between a block and its parent.
+	canonical := make(map[NodeIndex]bool)
+	if anchorNode, err := pr.getNode(anchorIndex); err == nil {
+		for i := anchorNode.TransitionParent; i != NONE && i >= pr.indexOffset; {
+			canonical[i] = true
+			i = pr.nodes[i-pr.indexOffset].TransitionParent
+		}
 	}
 	// Collect the to-be-deleted nodes: everything in the array before the anchor.
 	pruned := make([]prunedNode, 0, anchorIndex-pr.indexOffset)
 	for i := pr.indexOffset; i < anchorIndex; i++ {
 		node := &pr.nodes[i-pr.indexOffset]
-		pruned = append(pruned, prunedNode{node.BestDescendant == headIndex, node})
+		pruned = append(pruned, prunedNode{canonical[i], node})
 	}
 	// Send pruned nodes to the node sink (if there is one). Continue until it fails.
 	// Only prune what we successfully sent to the sink.
